@@ -348,7 +348,8 @@ impl Cfg {
                 (w + min_out - 1) / min_out
             }
             _ => 0,
-        };
+        }
+        .max(1);
         (blocks * min_in, blocks * min_out)
     }
     pub fn class(&self) -> String {
@@ -626,10 +627,6 @@ pub fn gen_cfg_kind(rng: &mut Rng, p: &GenProfile, kind: Kind) -> Cfg {
                 1 => 2,
                 _ => rng.ui(1, 8),
             };
-            if kind != Kind::FftInOut && c.chunk < c.sub_chunks {
-                // chunk/sub_chunks == 0 would ask for an FFT of length 0: outside the domain
-                c.sub_chunks = rng.ui(1, c.chunk);
-            }
             let (fi, fo) = c.fft_sizes();
             if fi >= 1 && fo >= 1 && fi <= p.max_fft_block && fo <= p.max_fft_block {
                 break;
